@@ -1,4 +1,5 @@
 import JenVerif.Registry
+import JenVerif.Quote
 /-
   Primitives that the ALGORITHM translator (translator/algo.go, tie 1b) maps Go constructs to.
   Each is a small total definition with the semantics of the Go construct it stands for:
@@ -39,6 +40,9 @@ def lastIndexFrom (pat : Str) : Str → Nat → Int → Int
   | c :: cs, i, acc => lastIndexFrom pat cs (i + 1) (if Str.isPrefixOf pat (c :: cs) then Int.ofNat i else acc)
 
 def lastIndex (s pat : Str) : Int := lastIndexFrom pat s 0 (-1)
+
+/-- `sort.Strings` (bytewise order) -/
+def sortStrings (l : List Str) : List Str := l.mergeSort Str.le
 
 def removeNotLowerAlnum (s : Str) : Str := s.filter Registry.isLowerAlnum
 
